@@ -151,6 +151,7 @@ def main():
             meta["caught_by"] = res["caught_by"]
             if history:
                 meta["history"] = history
+            meta["repo_base_commit"] = subprocess.run(["git", "-C", "/repo", "rev-parse", "--short", "HEAD"], stdout=subprocess.PIPE, text=True).stdout.strip()
             meta["how_run"] = "tools/seedeval.py: scratch worktree + git apply; VERIF_REPO=<worktree> ./check <id> --tier %s" % a.tier
             json.dump(meta, open(os.path.join(d, "meta.json"), "w"), indent=1)
     finally:
